@@ -3,10 +3,11 @@
 EXTENDS AsmSizing, Json, IOUtils
 Fillers == IF IOEnv.TIER = "thorough" THEN {0, 1, 119, 120, 121, 122, 123, 124, 125, 126, 127, 128, 129, 130} ELSE {0, 1, 119, 120, 121, 122, 123, 124, 125, 126, 127, 128, 129}
 MaxN == IF IOEnv.TIER = "thorough" THEN 4 ELSE 3
-Items(n) == [k : {"fix"}, sz : Fillers, tgt : {0}, base : {0}] \cup [k : {"pcr"}, sz : {0}, tgt : 1..n, base : {2, 3}]
+Items(n) == {[k |-> "fix", sz |-> f, tgt |-> 0, base |-> 0, mx |-> f] : f \in Fillers} \cup {[k |-> "fix", sz |-> 3, tgt |-> 0, base |-> 0, mx |-> 2]}
+            \cup [k : {"pcr"}, sz : {0}, tgt : 1..n, base : {2, 3}, mx : {0}]
 NP == atoi(IOEnv.NPARTS)
 PART == atoi(IOEnv.PART)
-Progs == UNION {{p \in [1..n -> Items(n)] : (\E i \in 1..n : p[i].k = "pcr") /\ (p[1].sz + p[1].tgt * 7 + p[n].sz * 3 + p[n].base) % NP = PART} : n \in 1..MaxN}
+Progs == UNION {{p \in [1..n -> Items(n)] : (\E i \in 1..n : p[i].k = "pcr") /\ (p[1].sz + p[1].tgt * 7 + p[n].sz * 3 + p[n].base + p[n].mx) % NP = PART} : n \in 1..MaxN}
 RECURSIVE Run(_, _, _)
 Run(prog, st, fuel) == IF st.phase = "done" \/ fuel = 0 THEN st ELSE Run(prog, Step(prog, st), fuel - 1)
 Out == SetToSeq({[prog |-> p, final |-> Run(p, Init0(p), 200).size] : p \in Progs})
